@@ -193,26 +193,28 @@ void *__wrap_malloc(size_t n) { void *p = __real_malloc(n); lt_add(p, (void **) 
 char *__wrap_strdup(const char *s) { char *p = __real_strdup(s); lt_add(p, (void **) __builtin_frame_address(0)); return p; }
 void *__wrap_realloc(void *o, size_t n) { void *p; lt_del(o); p = __real_realloc(o, n); lt_add(p, (void **) __builtin_frame_address(0)); return p; }
 void __wrap_free(void *p) { lt_del(p); __real_free(p); }
-/* names of the library functions that allocated the blocks still live: "[f1,f2]" */
+/* allocation stacks (module offsets of up to 5 return addresses) of the blocks still live: "[[o1,o2,..],..]", at most 16
+ * different ones; the check symbolises them in one batch */
 static void sb_leaks(vh_sb *b) {
-    static char names[16][64]; int nn = 0, i, k, j;
+    static unsigned long st[16][5]; int nn = 0, i, k, j;
     for (i = 0; i < LT_SIZE && nn < 16; i++) {
+        unsigned long cur[5];
         if (!lt[i].p) continue;
         for (k = 0; k < 5; k++) {
-            char d[512]; char *sp;
-            if (!lt[i].ra[k]) break;
-            d[0] = 0;
-            __sanitizer_symbolize_pc(lt[i].ra[k], "%f %s", d, sizeof(d));
-            sp = strchr(d, ' ');
-            if (!sp || !strstr(sp, "/src/") || !strncmp(d, "spiftool_get_word", 17)) continue;
-            *sp = 0;
-            for (j = 0; j < nn; j++) if (!strcmp(names[j], d)) break;
-            if (j == nn) { strncpy(names[nn], d, 63); names[nn][63] = 0; nn++; }
-            break;
+            char mod[512]; void *off = NULL;
+            cur[k] = 0;
+            if (lt[i].ra[k] && __sanitizer_get_module_and_offset_for_pc(lt[i].ra[k], mod, sizeof(mod), &off)) cur[k] = (unsigned long) (uintptr_t) off;
         }
+        for (j = 0; j < nn; j++) if (!memcmp(st[j], cur, sizeof(cur))) break;
+        if (j == nn) memcpy(st[nn++], cur, sizeof(cur));
     }
     sb_putc(b, '[');
-    for (i = 0; i < nn; i++) { if (i) sb_putc(b, ','); sb_puts(b, names[i]); }
+    for (i = 0; i < nn; i++) {
+        if (i) sb_putc(b, ',');
+        sb_putc(b, '[');
+        for (k = 0; k < 5; k++) { if (k) sb_putc(b, ','); sb_printf(b, "%lu", st[i][k]); }
+        sb_putc(b, ']');
+    }
     sb_putc(b, ']');
     memset(lt, 0, sizeof(lt)); lt_count = 0;
 }
